@@ -210,6 +210,13 @@ impl Monitor for Mon {
             self.pending = None;
             self.sticky = None;
         }
+        if aborted_before_tx(w, rec) {
+            // the uplink that would have carried the answers never reached the radio; whether the device counts it as
+            // "the next uplink" is not stated: start afresh
+            self.pending = None;
+            self.sticky = None;
+            stats.bump("probe.uplink-aborted-before-tx");
+        }
         if let (Op::Send { .. }, Some(k)) = (&rec.op, keys) {
             if let Some(tx) = tx_events(w, rec).first() {
                 match uplink_cmds(&tx.bytes, &k, self.fcnt_up_before) {
